@@ -17,7 +17,7 @@ E_DIG = ["sign_nil", "signasn1_nil", "sign_nogm", "legacy_sign"]
 R_ALL = ["new", "newint", "struct", "fromec", "sec1"]
 CRAFTS = ["none", "kbig", "kzero", "r0", "rk", "s0", "r1", "rnm1", "rshort", "s1", "snm1", "sshort"]
 BAD = ["nm1", "n", "np5", "max", "big33"]
-M_STRUCT = ["none", "len", "tag", "int", "enc", "ctx", "forge"]
+M_STRUCT = ["none", "len", "tag", "int", "enc", "ctx", "forge", "adv"]
 
 
 def shard(name, workers=3, **kw):
@@ -33,7 +33,7 @@ def plan(tier):
         return [
             shard("flips", 4, Keys=q(["r1", "nm2", "short"]), MutSel=q(["flip"])),
             shard("flipcraft", 4, Keys=q(["r2"]), Entries=q(["sign_nil"]), Crafts=q(["r1", "rshort", "s1", "sshort", "rnm1", "snm1"]), MutSel=q(["flip"])),
-            shard("craftint", 4, Keys=q(["r1"]), Entries=q(["sign_nil", "legacy_sign"]), Crafts=q(["r1", "rshort", "s1", "sshort", "rnm1", "snm1"]), MutSel=q(["int", "enc"])),
+            shard("craftint", 4, Keys=q(["r1"]), Entries=q(["sign_nil", "legacy_sign"]), Crafts=q(["r1", "rshort", "s1", "sshort", "rnm1", "snm1"]), MutSel=q(["int", "enc", "adv"])),
             shard("struct_a", 4, Keys=q(["k1", "nm2", "short", "r3"]), Entries=q(["sign_gm"]), UidLens=S([16]), MsgLens=S([64]), MutSel=q(M_STRUCT)),
             shard("struct_b", 4, Keys=q(["k2", "r1", "r2", "r4"]), Entries=q(["signwithsm2"]), UidLens=S([0]), MsgLens=S([33]), MutSel=q(M_STRUCT)),
             shard("combos_a", 4, Keys=q(["k1", "r3", "k2"]), Entries=q(["signasn1_gm", "legacy_signwithsm2"]), UidLens=S([0, 1, 16]), MsgLens=S([0, 1, 64, 1024])),
